@@ -343,6 +343,17 @@ def run(ctx):
     simcases = simcases + sim4.cases
     nq, ns = (260, 60) if ctx.tier == "quick" else (2500, 1200)
     plan = rnd.sample(cases, min(nq, len(cases))) + rnd.sample(simcases, min(ns, len(simcases)))
+    # stratify: every action of the specification must occur in the replayed behaviours whatever the seed
+    pool = cases + simcases
+    for act in ("condition", "to_likelihood", "copy_enable_fd", "apply_model", "logd", "gradient", "sample", "run_sampler",
+                "gibbs", "cond_factor", "mutate_copy", "bad_call"):
+        have = sum(1 for c in plan if any(h[0] == act for h in c["hist"]))
+        if have < 6:
+            extra = [c for c in pool if any(h[0] == act for h in c["hist"]) and c not in plan]
+            rnd.shuffle(extra)
+            # prefer behaviours in which the action can really be executed (e.g. run_sampler needs an earlier condition)
+            extra.sort(key=lambda c: 0 if (act != "run_sampler" or c["hist"][0][0] == "condition") else 1)
+            plan += extra[:6 - have]
     sweeps = 20 if ctx.tier == "quick" else 300
     for i, c in enumerate(plan):
         graphs = GRAPHS[c["n"]]
